@@ -33,7 +33,7 @@ LEVEL_NOTE = (
     'construction (padding of ragged rows is modelled); IEEE rounding is not modelled (inputs are integers and '
     'dyadic fractions, sums and products are exact, the mean is compared within 4 ulp). Known findings: D1403 '
     '(a run of more than 100 empty cells cuts a range short), D1404 (COUNT/COUNTA reject more than 255/256 '
-    'cells), D1405 (a reference to a never-stored cell counts as 0 in AVERAGE/MIN/MAX).')
+    'cells). A reference to a never-stored cell (BLANK) is inside the domain: it must be ignored (D1405, fixed).')
 DESIGN_REF = '§4 C14'
 TRUSTED = [
     'Lean 4.33 kernel; axioms propext, Classical.choice, Quot.sound only',
@@ -555,7 +555,7 @@ class Gen:
             self.direct(fn, [['R', [['abc', '']]]], 'probe')
             self.direct(fn, [['S', 3, 'n'], ['S', 4, 'x']], 'probe')
 
-    # -- 8. the regions of the known findings
+    # -- 8. the regions of the known findings (and of the repaired D1405)
     def known_regions(self):
         rng = self.rng
         # D1403: a run of more than MAX_EMPTY empty cells
@@ -577,7 +577,7 @@ class Gen:
             self.both([(fn, [['R', big]])], 'many')
             self.both([(fn, [['R', big], ['S', 1, 'x']])], 'many')
             self.both([(fn, [['R', two], ['R', two]])], 'many')
-        # D1405: a reference to a cell that was never stored in the model
+        # D1405 (fixed): a reference to a cell that was never stored in the model is ignored
         for fn in SINGLE:
             self.both([(fn, [['S', None, 'ref'], ['S', 4, 'x']])], 'blankref')
             self.both([(fn, [['R', [[3, ''], ['abc', -7]]], ['S', None, 'ref']])], 'blankref')
@@ -617,7 +617,7 @@ def rectangular(rows):
 
 def in_domain(case):
     """numbers, empty cells and non-numeric text in rectangular ranges; scalars: numbers, references to
-    such cells, and a reference to a never-stored cell (blank)."""
+    such cells, and a reference to a never-stored cell (BLANK: to be ignored, D1405 fixed)."""
     if not case['args']:
         return False
     for a in case['args']:
@@ -658,8 +658,6 @@ def guards(case, max_empty):
     n = len(addressed(case['args']))
     if (fn == 'COUNT' and n > 255) or (fn == 'COUNTA' and n > 256):
         g.add('D1404')
-    if fn in ('AVERAGE', 'MIN', 'MAX') and any(a[0] == 'S' and a[1] is None for a in case['args']):
-        g.add('D1405')
     return g
 
 
